@@ -369,6 +369,8 @@ impl Server {
                     .expect("failed to publish diagnostics");
                 #[cfg(feature = "verif")]
                 crate::verif::point(crate::verif::Ev::Published);
+                #[cfg(feature = "verif")]
+                crate::verif::point(crate::verif::Ev::PublishedFor(file_id.0, diag_version));
             }
 
             for (file_id, diagnostics) in all_diagnostics {
@@ -394,6 +396,8 @@ impl Server {
                     .expect("failed to publish diagnostics");
                 #[cfg(feature = "verif")]
                 crate::verif::point(crate::verif::Ev::Published);
+                #[cfg(feature = "verif")]
+                crate::verif::point(crate::verif::Ev::PublishedFor(file_id.0, diag_version));
             }
         });
     }
